@@ -64,6 +64,7 @@ inductive Ev
   | answer (b : Bool)
   | threwLogic
   | reporterWas (r : Nat)
+  | okReporterWas (r : Nat)
   | badOp
   deriving DecidableEq, Repr, Inhabited
 
@@ -111,6 +112,7 @@ structure World where
   tracers : List Nat := []         -- live tracers, newest first
   deadTracers : List Nat := []
   reporter : Nat := 0
+  okReporter : Nat := 0        -- the OK reporter is a slot of its own (mock.hpp: ok_reporter_obj())
   nextE : Nat := 0
   nextM : Nat := 0
   nextS : Nat := 0
@@ -163,7 +165,7 @@ inductive Op
   | releasemon (m : Nat)
   | tracer (t : Nat)
   | killtracer (t : Nat)
-  | setreporter (r : Nat)
+  | setreporter (r : Nat) (ok : Option Nat)    -- `set_reporter(f)` / `set_reporter(f, ok_f)`
 
 namespace World
 
@@ -342,7 +344,7 @@ def runActions (w : World) (o f e : Nat) (x : Exp) (m : Mock) (a : Args) : World
       (w, [w.rep .fatal r] ++ w.traceEv e a (.threw .rep) ++ [.result (.threw .rep)])
     | some _ =>
       let res := actionEvents e x a
-      (w.bookkeep o f e x m, [Ev.ok w.reporter e] ++ res.1 ++ w.traceEv e a res.2 ++ [.result res.2])
+      (w.bookkeep o f e x m, [Ev.ok w.okReporter e] ++ res.1 ++ w.traceEv e a res.2 ++ [.result res.2])
 
 /-- `mock_func` (mock.hpp:3372-3406). -/
 def callFn (w : World) (o f : Nat) (a : Args) : World × List Ev :=
@@ -448,7 +450,7 @@ def legal (w : World) : Op → Bool
   | .msat m | .msatd m | .releasemon m => w.monAlive m
   | .tracer t => t == w.nextT
   | .killtracer t => w.tracers.contains t
-  | .setreporter _ => true
+  | .setreporter _ _ => true
 
 def step (w : World) (op : Op) : World × List Ev :=
   if !w.legal op then (w, [.badOp]) else
@@ -521,7 +523,10 @@ def step (w : World) (op : Op) : World × List Ev :=
       ({ w2 with mons := upd w2.mons m { x with alive := false } }, evs)
   | .tracer t => ({ w with tracers := t :: w.tracers, nextT := t + 1 }, [])
   | .killtracer t => ({ w with tracers := w.tracers.filter (· ≠ t) }, [])
-  | .setreporter r => ({ w with reporter := r }, [.reporterWas w.reporter])
+  | .setreporter r ok =>
+    -- the one-argument form replaces the violation reporter only; the OK reporter stays installed
+    ({ w with reporter := r, okReporter := ok.getD w.okReporter },
+     .reporterWas w.reporter :: (match ok with | some _ => [.okReporterWas w.okReporter] | none => []))
 
 /-- run a script; the event lists per operation. -/
 def run (w : World) : List Op → World × List (List Ev)
